@@ -28,7 +28,7 @@ RULE = ("create_cooler(ordered=False): regression corpus (D9: 2 or 3 chunks with
         "chromosomes), both storage modes, columns count / count+x, mergebuf 1..N+1, max_merge 1..k+1, unsorted chunks with ensure_sorted, empty chunks; all chunk orders of "
         "3-chunk inputs; `cooler load -f coo` and `cooler cload pairs` with --chunksize 1..4, --max-merge, --mergebuf, --temp-dir; edges of the first merge pass observed "
         "with delete_temp=False; np.linspace edge lists for n <= 5000 checked admissible; merge_breakpoints at function level on every family of 1..2 monotone index "
-        "arrays of length 2..3 (increments 0..2) x bufsize 1..nnz+1 plus random larger ones; the known finding D22 in a fresh interpreter. non-trivial = a pixel occurs in >= 2 chunks, or >= 2 merge epochs, or two passes; distinct by input hash")
+        "arrays of length 2..3 (increments 0..2) x bufsize 1..nnz+1 plus random larger ones; the known finding D22 in a fresh interpreter; parameter/representation audit (one case each): chunks as dict of arrays / list / int32 ids / int32 and float64 values / with an unrequested column, columns=None, dtypes None / partial / float default, ids listed in columns, default mergebuf, max_merge 0 and -1, temp_dir None (location observed with delete_temp=False) and \"-\", check flags off, output URI with group, mode=a / --append next to an existing cooler, `cooler load` --one-based / duplex / --count-as-float / --field / bg2 / chromsizes:binsize bins, `cload pairs` --zero-based / BED bins / permuted field numbers / duplex / --field score. non-trivial = a pixel occurs in >= 2 chunks, or >= 2 merge epochs, or two passes; distinct by input hash")
 TRUSTED = ["pandas concat/groupby/sort_values, np.linspace, tempfile.NamedTemporaryFile and h5py are observed through create_cooler, modelled by Model/Merge.v",
            "for the CLI runs the harness itself turns text lines into per-chunk records (bin assignment, upper-triangle reflection, per-chunk aggregation for cload): "
            "that is the ingest pipeline of C05, not part of this property"]
@@ -72,12 +72,19 @@ def impl_fresh_process(root, case):
 
 
 # --------------------------------------------------------------------- implementation
-def chunk_frame(ch, cols):
-    d = {"bin1_id": np.array([p[0] for p in ch], dtype=np.int64),
-         "bin2_id": np.array([p[1] for p in ch], dtype=np.int64)}
+def chunk_frame(ch, cols, case=None):
+    """one chunk as the caller hands it over: DataFrame (default) or dict of arrays; id / value dtypes and an
+    unrequested extra column are representation choices of the case"""
+    case = case or {}
+    idt = np.dtype(case.get("id_dtype", "int64"))
+    vdt = np.dtype(case.get("val_dtype", "int64"))
+    d = {"bin1_id": np.array([p[0] for p in ch], dtype=idt),
+         "bin2_id": np.array([p[1] for p in ch], dtype=idt)}
     for k, (nm, _) in enumerate(cols):
-        d[nm] = np.array([p[2][k] for p in ch], dtype=np.int64)
-    return pd.DataFrame(d)
+        d[nm] = np.array([p[2][k] for p in ch], dtype=vdt)
+    if case.get("extra_col"):
+        d["junk"] = np.arange(len(ch), dtype=np.float64)
+    return d if case.get("repr") == "dict" else pd.DataFrame(d)
 
 
 def impl_api(root, case, limit=20.0):
@@ -89,26 +96,61 @@ def impl_api(root, case, limit=20.0):
     if os.path.exists(out):
         os.remove(out)
     cols = [tuple(c) for c in case["cols"]]
-    before = G.listdir_sorted(td)
     kw = {}
     for k in ("dupcheck", "triucheck", "ensure_sorted", "boundscheck"):
         if k in case:
             kw[k] = bool(case[k])
     keep = bool(case.get("keep_temp"))
+    # ---- parameter values of the case (defaults = what every earlier case used)
+    chunks = [chunk_frame(ch, cols, case) for ch in case["chunks"]]
+    pixels = chunks if case.get("repr") == "list" else iter(chunks)
+    if not case.get("columns_none"):
+        kw["columns"] = [c for c, _ in cols] + (["bin1_id"] if case.get("columns_with_ids") else [])
+    da = case.get("dtypes_arg", "full")
+    if da == "full":
+        kw["dtypes"] = {c: G.np_dtype(b) for c, b in cols}
+    elif da != "none":                      # a dict that names only the listed columns
+        kw["dtypes"] = {c: G.np_dtype(b) for c, b in cols if c in da}
+    if not case.get("mergebuf_default"):
+        kw["mergebuf"] = case["mergebuf"]
+    tdm = case.get("temp_dir", "given")
+    if tdm == "none":                       # temp files next to the output file
+        outdir = os.path.join(root, "outdir")
+        shutil.rmtree(outdir, ignore_errors=True)
+        os.makedirs(outdir)
+        out = os.path.join(outdir, "out.cool")
+        td_watch = outdir
+    else:
+        td_watch = td
+        kw["temp_dir"] = td if tdm == "given" else "-"
+    uri = out
+    if case.get("mode_a"):
+        G.write_cooler(out + "::/keep/me", "A3", True, COLS1, [[0, 1, [7]], [2, 2, [1]]])
+        kept_before = G.read_raw(out + "::/keep/me")
+        kw["mode"] = "a"
+    if case.get("out_group"):
+        uri = out + "::" + case["out_group"]
+    before = G.listdir_sorted(td_watch)
+    cwd0 = os.getcwd()
+    if tdm != "given":
+        # a stray temp file written to the working directory must land in scratch space
+        trap = os.path.join(root, "cwd_trap")
+        os.makedirs(trap, exist_ok=True)
+        os.chdir(trap)
     try:
         with warnings.catch_warnings():
             warnings.simplefilter("ignore")
             with G.time_limit(limit):
-                cooler.create_cooler(out, G.bins_df(case["ax"]), (chunk_frame(ch, cols) for ch in case["chunks"]),
-                                     columns=[c for c, _ in cols], dtypes={c: G.np_dtype(b) for c, b in cols},
+                cooler.create_cooler(uri, G.bins_df(case["ax"]), pixels,
                                      ordered=False, symmetric_upper=bool(case["symm"]),
-                                     mergebuf=case["mergebuf"], max_merge=case["max_merge"], temp_dir=td,
-                                     delete_temp=not keep, **kw)
-                raw = G.read_raw(out, [c for c, _ in cols])
+                                     max_merge=case["max_merge"], delete_temp=not keep, **kw)
+                raw = G.read_raw(uri, [c for c, _ in cols])
         obs = G.obs_of_raw(raw)
-        after = G.listdir_sorted(td)
+        if case.get("mode_a"):
+            obs["kept"] = G.read_raw(out + "::/keep/me") == kept_before
+        after = [f for f in G.listdir_sorted(td_watch) if f != "out.cool"]
         if keep:
-            obs["edges"] = temp_edges(td, after)
+            obs["edges"] = temp_edges(td_watch, after)
             obs["temp_left"] = len(after)
         else:
             obs["temp_left"] = [f for f in after if f not in before]
@@ -118,6 +160,7 @@ def impl_api(root, case, limit=20.0):
             raise
         return G.classify(e)
     finally:
+        os.chdir(cwd0)
         shutil.rmtree(td, ignore_errors=True)
 
 
@@ -156,16 +199,38 @@ def impl_cli(root, case, limit=20.0):
     with open(txt, "w") as f:
         for ln in case["lines"]:
             f.write("\t".join(str(x) for x in ln) + "\n")
-    common = ["--chunksize", str(case["chunksize"]), "--mergebuf", str(case["mergebuf"]),
-              "--max-merge", str(case["max_merge"]), "--temp-dir", td]
+    common = ["--chunksize", str(case["chunksize"]), "--max-merge", str(case["max_merge"]), "--temp-dir", td]
+    if not case.get("mergebuf_default"):            # default: mergebuf = chunksize
+        common += ["--mergebuf", str(case["mergebuf"])]
+    uri = out
+    if case.get("mode_a"):
+        G.write_cooler(out + "::/keep/me", "A3", True, COLS1, [[0, 1, [7]], [2, 2, [1]]])
+        kept_before = G.read_raw(out + "::/keep/me")
+        common.append("--append")
+    if case.get("out_group"):
+        uri = out + "::" + case["out_group"]
+    if not case["symm"]:
+        common.append("--no-symmetric-upper")
+    if case.get("copy_status"):
+        common += ["--input-copy-status", case["copy_status"]]
     if case["fn"] == "load":
-        args = ["load", "-f", "coo"] + common
-        if not case["symm"]:
-            args.append("--no-symmetric-upper")
-        args += [bed, txt, out]
+        args = ["load", "-f", case.get("format", "coo")] + common
+        if case.get("one_based"):
+            args.append("--one-based")
+        if case.get("count_as_float"):
+            args.append("--count-as-float")
+        if case.get("field_x"):
+            args += ["--field", "count=3", "--field", "x=4:dtype=int32"]
+        bins_arg = f"{cs}:{case['binsize']}" if case.get("bins_from_chromsizes") else bed
+        args += [bins_arg, txt, uri]
     else:
-        args = ["cload", "pairs", "-c1", "1", "-p1", "2", "-c2", "3", "-p2", "4"] + common
-        args += [f"{cs}:{case['binsize']}", txt, out]
+        f = case.get("fields", [1, 2, 3, 4])
+        args = ["cload", "pairs", "-c1", str(f[0]), "-p1", str(f[1]), "-c2", str(f[2]), "-p2", str(f[3])] + common
+        if case.get("zero_based"):
+            args.append("--zero-based")
+        if case.get("field_score"):
+            args += ["--field", "score=5:dtype=int32"]
+        args += [bed if case.get("bins_from_bed") else f"{cs}:{case['binsize']}", txt, uri]
     try:
         with warnings.catch_warnings():
             warnings.simplefilter("ignore")
@@ -175,8 +240,10 @@ def impl_cli(root, case, limit=20.0):
                     if res.exception is not None and not isinstance(res.exception, SystemExit):
                         raise res.exception
                     raise RuntimeError(f"cli exit {res.exit_code}: {res.output[-300:]}")
-                raw = G.read_raw(out, ["count"])
+                raw = G.read_raw(uri, [c for c, _ in effective(case)[1]])
         obs = G.obs_of_raw(raw)
+        if case.get("mode_a"):
+            obs["kept"] = G.read_raw(out + "::/keep/me") == kept_before
         obs["temp_left"] = G.listdir_sorted(td)
         return obs
     except BaseException as e:  # noqa: BLE001
@@ -192,31 +259,61 @@ def cli_chunks(case):
     """the per-chunk record lists the ingest pipeline (C05) yields for the text input"""
     lines, cs = case["lines"], case["chunksize"]
     out = []
-    if case["fn"] == "load":
-        for i in range(0, len(lines), cs):
-            ch = []
-            for (a, b, v) in lines[i:i + cs]:
-                if case["symm"] and a > b:
-                    a, b = b, a
-                ch.append([a, b, [v]])
-            out.append(sorted(ch))
-        return out
     blocks, names = G.AXES[case["ax"]]
-    offs, o = {}, 0
+    offs, o, start2bin = {}, 0, {}
     for blk, nm in zip(blocks, names):
         offs[nm] = o
+        for k, (_, s_, _e) in enumerate(blk):
+            start2bin[(nm, s_)] = o + k
         o += len(blk)
+    drop_lower = case.get("copy_status") == "duplex"
+    if case["fn"] == "load":
+        shift = 1 if case.get("one_based") else 0
+        for i in range(0, len(lines), cs):
+            ch = []
+            for ln in lines[i:i + cs]:
+                if case.get("format") == "bg2":
+                    a, b, vals = start2bin[(ln[0], ln[1])], start2bin[(ln[3], ln[4])], list(ln[6:])
+                else:
+                    a, b, vals = ln[0] - shift, ln[1] - shift, list(ln[2:])
+                if case["symm"] and a > b:
+                    if drop_lower:
+                        continue
+                    a, b = b, a
+                ch.append([a, b, vals])
+            out.append(sorted(ch))
+        return out
     bs = case["binsize"]
+    f = case.get("fields", [1, 2, 3, 4])
+    shift = 0 if case.get("zero_based") else 1
     for i in range(0, len(lines), cs):
-        cnt = Counter()
-        for (c1, p1, c2, p2) in lines[i:i + cs]:
-            a = offs[c1] + (p1 - 1) // bs
-            b = offs[c2] + (p2 - 1) // bs
-            if a > b:
+        cnt, score = Counter(), Counter()
+        for ln in lines[i:i + cs]:
+            c1, p1, c2, p2 = ln[f[0] - 1], ln[f[1] - 1], ln[f[2] - 1], ln[f[3] - 1]
+            a = offs[c1] + (p1 - shift) // bs
+            b = offs[c2] + (p2 - shift) // bs
+            if case["symm"] and a > b:
+                if drop_lower:
+                    continue
                 a, b = b, a
             cnt[(a, b)] += 1
-        out.append([[a, b, [v]] for (a, b), v in sorted(cnt.items())])
+            if case.get("field_score"):
+                score[(a, b)] += ln[4]
+        if case.get("field_score"):
+            out.append([[a, b, [score[(a, b)], v]] for (a, b), v in sorted(cnt.items())])
+        else:
+            out.append([[a, b, [v]] for (a, b), v in sorted(cnt.items())])
     return out
+
+
+def cli_cols(case):
+    if case["fn"] == "load":
+        if case.get("count_as_float"):
+            return [("count", "f64")]
+        if case.get("field_x"):
+            return [("count", 32), ("x", 32)]
+        return COLS1
+    return [("score", 32), ("count", 32)] if case.get("field_score") else COLS1
 
 
 def effective(case):
@@ -225,7 +322,7 @@ def effective(case):
         return (case["chunks"], [tuple(c) for c in case["cols"]],
                 dict(bounds=case.get("boundscheck", True), triu=case.get("triucheck", True),
                      dup=case.get("dupcheck", True), sort=case.get("ensure_sorted", False)))
-    return cli_chunks(case), COLS1, dict(bounds=True, triu=bool(case["symm"]), dup=True, sort=False)
+    return cli_chunks(case), cli_cols(case), dict(bounds=True, triu=bool(case["symm"]), dup=True, sort=False)
 
 
 def model_expr(case):
@@ -242,6 +339,8 @@ def parse_model(v, case):
     obs, edges = v
     m = G.parse_obs(obs)
     if isinstance(m, dict):
+        if case.get("mode_a"):
+            m["kept"] = True
         if case.get("keep_temp"):
             m["edges"] = None if edges is None else list(edges[1])
             m["temp_left"] = 2 if edges is not None else 1
@@ -273,14 +372,17 @@ def oracle(case):
                 row[i] += v
     for row in tot.values():
         for (c, b), v in zip(cols, row):
-            if not (-2 ** (b - 1) <= v <= 2 ** (b - 1) - 1):
+            if isinstance(b, int) and not (-2 ** (b - 1) <= v <= 2 ** (b - 1) - 1):
                 return None                  # out of the column dtype: C07's claim, not generated here
     keys = sorted(tot)
-    px = [[i, j, tot[(i, j)]] for (i, j) in keys]
+    isf = [str(b).startswith("f") for _, b in cols]
+    px = [[i, j, [float(v) if f else v for v, f in zip(tot[(i, j)], isf)]] for (i, j) in keys]
     names = [c for c, _ in cols]
     exp = {"symm": bool(case["symm"]), "cols": [[c, b] for c, b in cols],
            "off": [sum(1 for (i, _) in keys if i < b) for b in range(n + 1)], "px": px, "nnz": len(px),
            "sum": sum(r[2][names.index("count")] for r in px) if "count" in names else 0}
+    if case.get("mode_a"):
+        exp["kept"] = True                   # the cooler that was already in the file is untouched
     return exp
 
 
@@ -290,7 +392,7 @@ def check_oracle(ctx, case, got, exp):
     if not isinstance(got, dict):
         ctx.fail(case, {"expected": exp, "got": got}, None)
         return
-    core = {k: got[k] for k in ("symm", "cols", "off", "px", "nnz", "sum")}
+    core = {k: got[k] for k in ("symm", "cols", "off", "px", "nnz", "sum", "kept") if k in got}
     if core != exp:
         ctx.fail(case, {"expected": exp, "got": core}, None)
         return
@@ -466,6 +568,92 @@ def cli_cases(rng, n_each):
     return cs
 
 
+def modelled(case):
+    return all(G.is_signed_int(b) for _, b in effective(case)[1])
+
+
+def audit_cases(rng):
+    """one cheap case per public parameter value / input representation / dtype that the families above do not reach
+    (audit of create_cooler(ordered=False), `cooler load`, `cooler cload pairs`); oracle = Counter, model where it applies"""
+    cs = []
+    ch1 = [(0, 1, [3]), (1, 2, [5])]
+    ch2 = [(0, 1, [1]), (2, 2, [7])]
+    ch3 = [(1, 2, [2]), (2, 3, [1])]
+    three = [ch1, ch2, ch3]
+    x1 = [(0, 1, [3, 4]), (1, 2, [5, -1])]
+    x2 = [(0, 1, [1, 6]), (2, 2, [7, 0])]
+    # chunk representation: dict of arrays, list instead of iterator, int32 ids, int32 / float64 values, unrequested column
+    cs.append(("audit:repr", api_case("A4", True, COLS1, three, 1, 2, repr="dict")))
+    cs.append(("audit:repr", api_case("A4", True, COLS2, [x1, x2], 2, 1, repr="dict", id_dtype="int32")))
+    cs.append(("audit:repr", api_case("A4", True, COLS1, three, 2, 200, repr="list")))
+    cs.append(("audit:repr", api_case("A4", True, COLS1, three, 1, 1, id_dtype="int32", val_dtype="int32")))
+    cs.append(("audit:repr", api_case("A4", True, COLS1, three, 1, 2, val_dtype="float64")))          # float input, int32 output column
+    cs.append(("audit:repr", api_case("A4", True, COLS1, three, 3, 2, extra_col=True)))
+    cs.append(("audit:repr", api_case("A4", True, COLS2, [x1, x2], 3, 2, extra_col=True, repr="dict")))
+    # columns / dtypes: None, partial dict, float default of an undeclared extra column, ids listed among the columns
+    cs.append(("audit:columns", api_case("A4", True, COLS1, three, 1, 2, columns_none=True, dtypes_arg="none")))
+    cs.append(("audit:columns", api_case("A4", True, COLS1, three, 1, 2, dtypes_arg="none")))
+    cs.append(("audit:columns", api_case("A4", True, COLS2, [x1, x2], 1, 1, dtypes_arg=["x"])))       # count falls back to int32
+    cs.append(("audit:columns", api_case("A4", True, [("count", 32), ("x", "f64")], [x1, x2], 1, 1, dtypes_arg=["count"])))   # x falls back to float
+    cs.append(("audit:columns", api_case("A4", True, [("count", 64), ("x", 8)], [x1, x2], 2, 1)))
+    cs.append(("audit:columns", api_case("A4", True, [("count", "f64")], three, 2, 2)))
+    cs.append(("audit:columns", api_case("A4", True, COLS2, [x1, x2], 2, 200, columns_with_ids=True)))
+    # mergebuf default, max_merge 0 / negative (single pass), temp_dir None (next to the output) and "-" (system dir)
+    cs.append(("audit:params", api_case("A4", True, COLS1, three, 20000000, 2, mergebuf_default=True)))
+    cs.append(("audit:params", api_case("A4", True, COLS1, three, 1, 0)))
+    cs.append(("audit:params", api_case("A4", True, COLS1, three, 1, -1)))
+    cs.append(("audit:params", api_case("A4", True, COLS1, three, 1, 1, temp_dir="none")))
+    cs.append(("audit:params", api_case("A4", True, COLS1, three, 1, 200, temp_dir="none")))
+    cs.append(("audit:params", api_case("A4", True, COLS1, three, 1, 2, temp_dir="dash")))
+    # temp_dir=None puts the temporary files next to the output: with delete_temp=False they must be found there
+    cs.append(("audit:params", api_case("A4", True, COLS1, three, 1, 1, temp_dir="none", keep_temp=True)))
+    cs.append(("audit:params", api_case("A4", True, COLS1, three, 1, 200, temp_dir="none", keep_temp=True)))
+    cs.append(("audit:params", api_case("A4", False, COLS1, [[(3, 0, [1])], [(0, 3, [2]), (3, 0, [4])]], 1, 1, triucheck=False)))
+    cs.append(("audit:params", api_case("A4", True, COLS1, three, 1, 2, boundscheck=False)))
+    cs.append(("audit:params", api_case("A4", True, COLS1, three, 1, 2, triucheck=False, dupcheck=False)))
+    # output URI with a group; mode="a" into a file that already holds another cooler
+    cs.append(("audit:uri", api_case("V4", True, COLS1, three, 1, 2, out_group="/resolutions/7")))
+    cs.append(("audit:uri", api_case("V4", True, COLS1, three, 1, 1, out_group="/new", mode_a=True)))
+    cs.append(("audit:uri", api_case("V4", True, COLS1, three, 1, 200, mode_a=True, out_group="/a/b")))
+
+    # ---- cooler load
+    def load(lines, chunksize, **kw):
+        c = {"fn": "load", "ax": kw.pop("ax", "B5"), "symm": kw.pop("symm", True), "lines": lines, "chunksize": chunksize,
+             "mergebuf": kw.pop("mergebuf", 1), "max_merge": kw.pop("max_merge", 2)}
+        c.update(kw)
+        return c
+    coo = [[0, 1, 3], [3, 4, 1], [1, 0, 2], [2, 2, 5], [4, 3, 2], [0, 1, 1], [1, 1, 4]]
+    cs.append(("audit:load", load(coo, 2, mergebuf_default=True)))
+    cs.append(("audit:load", load([[a + 1, b + 1, v] for a, b, v in coo], 2, one_based=True)))
+    cs.append(("audit:load", load(coo, 3, copy_status="duplex")))
+    cs.append(("audit:load", load(coo, 2, count_as_float=True)))
+    cs.append(("audit:load", load([[a, b, v, 10 * v - 7] for a, b, v in coo], 2, field_x=True)))
+    cs.append(("audit:load", load(coo, 2, bins_from_chromsizes=True, binsize=10)))
+    cs.append(("audit:load", load(coo, 2, out_group="/x/y", mode_a=True)))
+    blocks, names = G.AXES["B5"]
+    flat = [(nm, s_, e_) for blk, nm in zip(blocks, names) for (_, s_, e_) in blk]
+    bg2 = [[flat[a][0], flat[a][1], flat[a][2], flat[b][0], flat[b][1], flat[b][2], v] for a, b, v in coo]
+    cs.append(("audit:load", load(bg2, 2, format="bg2")))
+    cs.append(("audit:load", load(bg2, 3, format="bg2", symm=False, max_merge=1)))
+
+    # ---- cooler cload pairs
+    def cload(lines, chunksize, **kw):
+        c = {"fn": "cload", "ax": kw.pop("ax", "B5"), "symm": kw.pop("symm", True), "binsize": 10, "lines": lines,
+             "chunksize": chunksize, "mergebuf": kw.pop("mergebuf", 1), "max_merge": kw.pop("max_merge", 2)}
+        c.update(kw)
+        return c
+    prs = [["chrB", 3, "chrB", 14], ["chrA", 12, "chrB", 25], ["chrB", 14, "chrB", 3], ["chrA", 1, "chrA", 20],
+           ["chrB", 21, "chrA", 11], ["chrB", 10, "chrB", 11], ["chrB", 4, "chrB", 12]]
+    cs.append(("audit:cload", cload(prs, 2, mergebuf_default=True)))
+    cs.append(("audit:cload", cload([[c1, p1 - 1, c2, p2 - 1] for c1, p1, c2, p2 in prs], 2, zero_based=True)))
+    cs.append(("audit:cload", cload(prs, 3, bins_from_bed=True)))
+    cs.append(("audit:cload", cload([[c2, p2, c1, p1] for c1, p1, c2, p2 in prs], 2, fields=[3, 4, 1, 2])))
+    cs.append(("audit:cload", cload(prs, 2, copy_status="duplex")))
+    cs.append(("audit:cload", cload([ln + [k + 1] for k, ln in enumerate(prs)], 2, field_score=True)))
+    cs.append(("audit:cload", cload(prs, 2, out_group="/p", mode_a=True, max_merge=1)))
+    return cs
+
+
 def nontrivial(case):
     chunks = effective(case)[0]
     seen, shared = set(), False
@@ -505,6 +693,7 @@ def run(ctx):
     cases += edges_cases(rng, thorough)
     cases += malformed_cases(rng)
     cases += cli_cases(rng, 30 if thorough else 8)
+    cases += audit_cases(rng)
 
     # known finding (temp files of the FIRST creation of a process survive it): exercised in a fresh
     # interpreter; this process is warmed up with one ordered creation so that every other case is
@@ -513,8 +702,9 @@ def run(ctx):
     cases.insert(0, ("finding:first-create", first))
     G.write_cooler(os.path.join(root, "warmup.cool"), "A4", True, COLS1, [[0, 1, [1]]])
 
-    exprs = [model_expr(case) for _, case in cases]
-    model = C.coq_eval(G.IMPORTS, exprs, tmpdir=ctx.tmp / "mv", shard=120, jobs=4)
+    idx = [i for i, (_, case) in enumerate(cases) if modelled(case)]
+    mvals = dict(zip(idx, C.coq_eval(G.IMPORTS, [model_expr(cases[i][1]) for i in idx], tmpdir=ctx.tmp / "mv", shard=120, jobs=4)))
+    model = [mvals.get(i) for i in range(len(cases))]
     timeouts = 0
     groups = {}
     for (kind, case), mo in zip(cases, model):
@@ -532,7 +722,8 @@ def run(ctx):
         got = impl_api(root, case) if case["fn"] == "api" else impl_cli(root, case)
         if got == "timeout":
             timeouts += 1
-        ctx.compare("create_from_unordered", case, got, parse_model(mo, case))
+        if mo is not None:
+            ctx.compare("create_from_unordered", case, got, parse_model(mo, case))
         check_oracle(ctx, case, got, oracle(case))
         if kind == "orders":
             key = canon({"ax": case["ax"], "symm": case["symm"], "b": case["mergebuf"], "m": case["max_merge"],
